@@ -551,13 +551,13 @@ func main() {
 		return
 	}
 	var cases []Case
-	for i := 0; i < r.Pick(40, 1200); i++ {
+	for i := 0; i < r.Pick(240, 6000); i++ {
 		cases = append(cases, Case{Kind: "signing", Stream: fmt.Sprintf("c12/signing/%d", i), Idx: i})
 	}
-	for i := 0; i < r.Pick(4, 60); i++ {
+	for i := 0; i < r.Pick(16, 300); i++ {
 		cases = append(cases, Case{Kind: "decoders", Stream: fmt.Sprintf("c12/decoders/%d", i), Idx: i})
 	}
-	for i := 0; i < r.Pick(12, 200); i++ {
+	for i := 0; i < r.Pick(60, 1500); i++ {
 		cases = append(cases, Case{Kind: "batch", Stream: fmt.Sprintf("c12/batch/%d", i), Idx: i})
 	}
 	r.Parallel(len(cases), func(i int) { runCase(r, cases[i]) })
